@@ -44,6 +44,9 @@ pub enum Block {
     Raw(Vec<u8>),
     /// increment the 32-bit progress word (main-line counter; lets oracles see progress)
     Tick,
+    /// ends the run: writes `word` into the last word of a mapped region (0: DRAM 5ffffe, 1: vector area 0000fe) and
+    /// jumps there - the first word of a multi-word instruction is readable, its operand words are not
+    EdgeExec { word: u16, edge: u8 },
     /// 1-4 register-only instructions on ER4 / ER6 drawn from a table of ~90 forms (arithmetic, logic, shifts, rotates,
     /// moves, bit operations on registers): variety of what executes at a boundary, nothing an oracle looks at
     Filler(u32),
@@ -546,6 +549,14 @@ impl GuestSpec {
                     a.w(0x6ba0);
                     a.l(*addr & 0x00ff_ffff);
                 }
+                Block::EdgeExec { word, edge } => {
+                    let at = if *edge == 0 { 0x5ffffeu32 } else { 0x0000fe };
+                    a.mov_b_imm(R0L + 4, (*word >> 8) as u8);
+                    a.mov_b_to_abs24(R0L + 4, at);
+                    a.mov_b_imm(R0L + 4, *word as u8);
+                    a.mov_b_to_abs24(R0L + 4, at + 1);
+                    a.jmp_abs(at);
+                }
                 Block::Filler(seed) => {
                     let mut x = *seed | 1;
                     let n = 1 + (x >> 29) % 4;
@@ -591,6 +602,18 @@ impl GuestSpec {
                     8 => 0x000000,
                     _ => 0xffff1e,
                 };
+                a.jmp_abs(e);
+                e
+            }
+            9 => {
+                // the transfer goes to exit + 1: PC never EQUALS the exit address (what follows is an error of its own)
+                let e = a.here() + 4;
+                a.jmp_abs(e + 1);
+                e
+            }
+            10 => {
+                // an odd exit address, reached exactly
+                let e = a.here() + 4 + 1;
                 a.jmp_abs(e);
                 e
             }
